@@ -386,6 +386,9 @@ fn num_tag(e: &ParseNumberError) -> &'static str {
         ParseNumberError::NaN => "NaN",
         ParseNumberError::NumberOverflow => "NumberOverflow",
         ParseNumberError::NumberUnderflow => "NumberUnderflow",
+        // a variant this harness does not know (a change to /repo may add one): still an observation, not a build failure
+        #[allow(unreachable_patterns)]
+        _ => "OtherNumberError",
     }
 }
 
@@ -395,6 +398,8 @@ fn general_tag(e: &ParseGeneralError) -> String {
         ParseGeneralError::Mode(_) => "Mode".to_owned(),
         ParseGeneralError::Number(e) => format!("Number.{}", num_tag(e)),
         ParseGeneralError::SampleBank(_) => "SampleBank".to_owned(),
+        #[allow(unreachable_patterns)]
+        _ => "OtherGeneralError".to_owned(),
     }
 }
 
@@ -407,6 +412,8 @@ fn tp_tag(e: &ParseTimingPointsError) -> String {
         ParseTimingPointsError::SampleBank(_) => "SampleBank".to_owned(),
         ParseTimingPointsError::TimeSignature(_) => "TimeSignature".to_owned(),
         ParseTimingPointsError::TimingControlPointNaN => "TimingControlPointNaN".to_owned(),
+        #[allow(unreachable_patterns)]
+        _ => "OtherTimingPointsError".to_owned(),
     }
 }
 
